@@ -107,12 +107,47 @@ func (w *World) pairHelperOf(fn *ssa.Function) *pairHelper {
 			}
 		}
 		ph.Independent = indep && len(evals) == 2
+		nEvaluator := 0
+		defer func() {
+			if nEvaluator > 0 {
+				ph.Independent = indep && len(evals)+nEvaluator == 2
+			}
+		}()
 		allInstrs(fn, func(in ssa.Instruction) {
 			ret, ok := in.(*ssa.Return)
 			if !ok || len(ret.Results) != 3 || isNilConst(ret.Results[0]) {
 				return
 			}
+			nEvaluator = 0
 			for i := 0; i < 2; i++ {
+				// the operand may be evaluated by a one-operand independent evaluator of the package
+				// (copy the context, evaluate the designated child, hand back the copy's result)
+				if ex, isEx := ret.Results[i].(*ssa.Extract); isEx && ex.Index == 0 {
+					if c, isCall := ex.Tuple.(*ssa.Call); isCall {
+						if e := staticCallee(c); e != nil && fnPkgKey(e) == "exec" {
+							if idx, okE := theWorld.independentEvaluator(e, r); okE && idx < len(c.Call.Args) {
+								k := int64(-1)
+								if ld, ok := c.Call.Args[idx].(*ssa.UnOp); ok && ld.Op == token.MUL {
+									if ia, ok := ld.X.(*ssa.IndexAddr); ok && isBSRPtrSlice(ia.X.Type()) {
+										if kk, ok := constInt(ia.Index); ok {
+											k = kk
+										}
+									}
+								}
+								switch k {
+								case 0:
+									ph.LeftResult = i
+									nEvaluator++
+									continue
+								case 1:
+									ph.RightResult = i
+									nEvaluator++
+									continue
+								}
+							}
+						}
+					}
+				}
 				ld, ok := ret.Results[i].(*ssa.UnOp)
 				if !ok {
 					ph.err = "result is not read from an evaluation context"
